@@ -77,12 +77,24 @@ fn element(name: &str, entries: &str, x: usize) -> String {
     format!("    <visualElement>\n      <elementName>{name}</elementName>\n{attrs}      <pos x=\"{x}\" y=\"100\"/>\n    </visualElement>\n")
 }
 
+thread_local! {
+    static ORDER: std::cell::Cell<usize> = const { std::cell::Cell::new(0) };
+}
+
+/// Document order of the elements: 0 = pins, then tests; 1 = tests, then pins; 2 = the tests after
+/// the first pin, the other pins behind them (a document lists its elements in any order)
+pub fn set_element_order(o: usize) {
+    ORDER.with(|c| c.set(o));
+}
+
 /// Render a document: pins and tests in the given order, interleaved with a few elements
 /// that are neither.
 pub fn render(pins: &[Pin], tests: &[TestDesc]) -> String {
     let mut s = String::from("<?xml version=\"1.0\" encoding=\"utf-8\"?>\n<circuit>\n  <version>2</version>\n  <attributes/>\n  <visualElements>\n");
     s.push_str(&element("Add", &entry("Bits", "<int>4</int>"), 0));
+    let mut pin_chunks: Vec<String> = vec![];
     for (i, p) in pins.iter().enumerate() {
+        let mut s = String::new();
         let mut es: Vec<String> = vec![];
         if let Some(l) = &p.label {
             es.push(entry("Label", &format!("<string>{}</string>", escape(l))));
@@ -112,7 +124,11 @@ pub fn render(pins: &[Pin], tests: &[TestDesc]) -> String {
         if i == 0 {
             s.push_str(&element("Const", &entry("Value", "<long>0</long>"), 5));
         }
+        pin_chunks.push(s);
     }
+    let mut test_chunk = String::new();
+    {
+        let s = &mut test_chunk;
     for (i, t) in tests.iter().enumerate() {
         let mut es = String::new();
         for (k, v) in &t.extra {
@@ -123,6 +139,22 @@ pub fn render(pins: &[Pin], tests: &[TestDesc]) -> String {
         }
         es.push_str(&entry("Testdata", &format!("<testData>\n            <dataString>{}</dataString>\n          </testData>", escape(&t.source))));
         s.push_str(&element("Testcase", &es, 300 + 20 * i));
+    }
+    }
+    match ORDER.with(|c| c.get()) {
+        1 => {
+            s.push_str(&test_chunk);
+            s.push_str(&pin_chunks.concat());
+        }
+        2 if !pin_chunks.is_empty() => {
+            s.push_str(&pin_chunks[0]);
+            s.push_str(&test_chunk);
+            s.push_str(&pin_chunks[1..].concat());
+        }
+        _ => {
+            s.push_str(&pin_chunks.concat());
+            s.push_str(&test_chunk);
+        }
     }
     s.push_str("  </visualElements>\n  <wires>\n    <wire>\n      <p1 x=\"0\" y=\"0\"/>\n      <p2 x=\"20\" y=\"0\"/>\n    </wire>\n  </wires>\n  <measurementOrdering/>\n</circuit>");
     s
